@@ -527,14 +527,17 @@ pub fn run(ctx: &mut Ctx) {
     crate::reference::mappings::self_check(&mut srng, 2000);
     crate::reference::metro::self_check(&mut srng);
 
-    let total = if ctx.mode == "miri" { ctx.size(300, 300) } else { ctx.size(200_000, 8_000_000) };
+    let total = if ctx.mode == "miri" { ctx.size(300, 300) } else { ctx.size(1_000_000, 8_000_000) };
     for n in ctx.cases("docs", total) {
         let mut rng = ctx.begin("docs", n);
         ctx.eval();
-        let cfg = DocCfg { max_lines: *rng.pick(&[2, 8, 60]), max_segs: *rng.pick(&[3, 10, 40]), big: rng.chance(1, 3), ..DocCfg::default() };
+        // one document in 150 has very long lines (hundreds of segments, several KB per line)
+        let long_lines = rng.chance(1, 150);
+        let cfg = DocCfg { max_lines: if long_lines { 3 } else { *rng.pick(&[2, 8, 60]) }, max_segs: if long_lines { 900 } else { *rng.pick(&[3, 10, 40]) }, big: rng.chance(1, 3), ..DocCfg::default() };
         let doc = gen_doc(&mut rng, &cfg);
         let text = doc.text(&mut rng);
         doc_buckets(ctx, &doc);
+        ctx.bucket_if(text.split(';').any(|l| l.len() > 4096), "line-longer-than-4096-bytes");
         let nontrivial = doc.lines.iter().any(|l| l.iter().any(Option::is_some)) || doc.sections.iter().any(|s| s.3.is_some());
         if nontrivial {
             ctx.nontrivial_bytes(text.as_bytes());
